@@ -17,6 +17,24 @@ LOCAL OnDiff(e, m) ==
               IF \E i \in DOMAIN e.has : e.has[i][2] # (e.has[i][1] \in changed)
               THEN V(m, "the diff names a part that did not change, or misses one that did") ELSE m
          ELSE m
-Mon(e, m0) == LET m1 == IF e.ev = "Diff" THEN OnDiff(e, m0) ELSE m0 IN [m1 EXCEPT !.n = @ + 1]
+\* The nine parts of a target's function environment, in the order dawn names them.
+EnvParts == <<"names", "constant values", "predeclared values", "universal values", "function values",
+              "global values", "default parameter values", "free variables", "code">>
+\* Reason{classes, outcome, eq, named, unknown, diffkeys}: classes[i] says how the old and the new
+\* environment relate on part i; named = the parts the rebuild reason names (tokenised by the
+\* harness), unknown = whatever else it contains, diffkeys = the keys the returned diff has edits for
+LOCAL OnReason(e, m) ==
+    LET differs == { EnvParts[i] : i \in { j \in 1..Len(EnvParts) : e.classes[j] # "same" } }
+        named == { e.named[i] : i \in DOMAIN e.named } IN
+    IF e.outcome # "ok" THEN V(m, "comparing two environments failed or panicked")
+    ELSE IF differs = {} THEN (IF e.eq THEN m ELSE V(m, "equal environments reported as different"))
+    ELSE IF e.eq THEN V(m, "different environments reported as equal")
+    ELSE IF named # differs \/ Len(e.named) # Cardinality(named) \/ Len(e.unknown) # 0
+         THEN V(m, "the rebuild reason does not name exactly the parts of the environment that differ")
+    ELSE IF { e.diffkeys[i] : i \in DOMAIN e.diffkeys } # differs
+         THEN V(m, "the environment diff does not have an edit exactly for the parts that differ")
+    ELSE m
+Mon(e, m0) == LET m1 == IF e.ev = "Diff" THEN OnDiff(e, m0) ELSE IF e.ev = "Reason" THEN OnReason(e, m0) ELSE m0
+              IN [m1 EXCEPT !.n = @ + 1]
 RunMon(c, es) == FoldLeft(LAMBDA m, e : Mon(e, m), MonInit(c), es)
 =============================================================================
